@@ -456,6 +456,8 @@ func runC08(args []string) int {
 type c08Scenario struct {
 	Config string `json:"config"`
 	Rules  string `json:"rules"`
+	// Names: the check names switched in this scenario (nil = all of CheckNames)
+	Names []string `json:"names,omitempty"`
 	// pint ci scenario: BaseRules is committed on main, Rules on the feature branch (rule/dependency only runs on removed rules)
 	CI        bool   `json:"ci,omitempty"`
 	BaseRules string `json:"base_rules,omitempty"`
@@ -499,6 +501,10 @@ func c08Binary(r *rand.Rand, rep *runReport, cwd string, n int) {
 		scens = append(scens, c08Scenario{Config: cfg, Rules: b.String()})
 	}
 
+	// promql/syntax on its own: rules with broken expressions next to a healthy one (the other scenarios hold no syntax
+	// error because a broken expression silences most other checks of that rule)
+	scens = append(scens, c08Scenario{Config: c08Prom("prom", nil) + c08AllKinds, Names: []string{"promql/syntax", "rule/label", "promql/series"},
+		Rules: "groups:\n- name: g\n  rules:\n" + c08RulePool[len(c08RulePool)-1] + "  - alert: Syn2\n    expr: up ==\n    labels:\n      team: a\n" + c08RulePool[2]})
 	// pint ci: a recording rule that an alert depends on is removed on the feature branch
 	ciScen := len(scens)
 	scens = append(scens, c08Scenario{CI: true, Config: c08Prom("prom", nil) + c08AllKinds,
@@ -513,6 +519,9 @@ func c08Binary(r *rand.Rand, rep *runReport, cwd string, n int) {
 	for si := range scens {
 		dir := filepath.Join(cwd, "bin", fmt.Sprintf("s%02d", si))
 		names := checks.CheckNames
+		if scens[si].Names != nil {
+			names = scens[si].Names
+		}
 		if scens[si].CI {
 			writeFile(filepath.Join(dir, "rules", "0.yml"), scens[si].BaseRules)
 			git(dir, "init", "-q", "-b", "main", ".")
